@@ -4,7 +4,9 @@
    Statements only; every proof is `exact <lemma>`; Print Assumptions under each. *)
 From Coq Require Import ZArith List Bool PrimFloat.
 Import ListNotations.
-Require Import PyBase Solver SolverFacts SolverF Eval EvalFacts EvalFacts2 EvalF EvalExamples.
+Require Import PyBase Solver SolverFacts SolverF SolveAll Eval EvalFacts EvalFacts2 EvalFacts3 EvalF EvalExamples.
+Require Import FSem FSolve EvalSolveAll EvalFortran.
+Require Fsic.Solver.SolveAllFacts.
 Open Scope Z_scope.
 
 (* ============ Part A: the solver, for any number type, any arithmetic, ANY evaluation oracle and hooks ============ *)
@@ -74,6 +76,26 @@ Section C04_solver.
     agree_outside (fun i q => W i q \/ (offset o <> 0 /\ In i (endo d) /\ q = p)) (vals_of s) (vals_of s') /\
     sf_frame p s s'.
   Proof. exact (solve_t_frame num sub absf ltb isfin zero ev before after d o t s p W). Qed.
+
+  (* "REJECTED UP FRONT CHANGES NOTHING", complete: whenever the call ended before any hook or evaluation pass ran (the
+     event log is what it was) — for whatever reason, whatever the options — the state is EXACTLY what it was, with one
+     exception that is characterised exactly: finding #3 (errors='raise', a non-zero in-span offset, SolutionError for
+     pre-existing non-finite values, period p holding the copy of period p + offset) *)
+  Theorem C04_no_event_no_change_or_finding3 d o t s :
+    log (fst (solve_t_M d o t s)) = log s ->
+    fst (solve_t_M d o t s) = s \/
+    (exists p, py_pos (length (status s)) t = Some p /\ feasible d (length (status s)) p = true /\
+               offset o <> 0 /\ 0 <= Z.of_nat p + offset o < Z.of_nat (length (status s)) /\
+               errors o = ERaise /\
+               solve_t_M d o t s =
+               (mkState (copy_endo num zero d (vals_of s) p (Z.to_nat (Z.of_nat p + offset o))) (status s) (iters s) (log s),
+                Raise (SolutionError None))).
+  Proof. exact (no_event_no_change_or_finding3 num sub absf ltb isfin zero ev before after d o t s). Qed.
+
+  (* ... hence without an offset: no event, no change *)
+  Theorem C04_no_event_no_change d o t s :
+    offset o = 0 -> log (fst (solve_t_M d o t s)) = log s -> fst (solve_t_M d o t s) = s.
+  Proof. exact (no_event_no_change num sub absf ltb isfin zero ev before after d o t s). Qed.
 End C04_solver.
 
 (* ============ Part B: the generated code — every program, every arithmetic, every function oracle ============ *)
@@ -182,7 +204,120 @@ Section C04_eval.
     | r => r
     end.
   Proof. exact (eval_pass_app num add sub mul div pow neg absf ltb leb eqb zero fun1 fun2 flagged catch t p1 p2 v). Qed.
+
+  (* solve() over ANY list of periods (any start / end, either spelling): value cells change only where a FEASIBLE
+     visited period p assigns — (y, p + k) for a left-hand term (y, k); with an offset the endogenous cells of p —,
+     status / iterations only at feasible visited periods; array lengths are kept *)
+  Theorem C04_solve_seq_frame_feasible (prog : program num) d o ts s :
+    wf_vals (length (status s)) (vals_of s) ->
+    (prog_lags num prog <= lags d)%nat -> (prog_leads num prog <= leads d)%nat ->
+    let n := length (status s) in
+    let s' := fst (solve_seq_M prog d o ts s) in
+    agree_outside (fun i q => exists t, In t ts /\ exists p, py_pos n t = Some p /\ feasible d n p = true /\
+                       ((exists k, In (i, k) (prog_lhs num prog) /\ Z.of_nat q = Z.of_nat p + k) \/
+                        (offset o <> 0 /\ In i (endo d) /\ q = p)))
+                  (vals_of s) (vals_of s') /\
+    length (status s') = n /\ length (iters s') = length (iters s) /\
+    (forall q, (forall t p, In t ts -> py_pos n t = Some p -> feasible d n p = true -> q <> p) ->
+               nth_error (status s') q = nth_error (status s) q /\ nth_error (iters s') q = nth_error (iters s) q).
+  Proof. exact (solve_seq_frame_feasible num add sub mul div pow neg absf ltb leb eqb zero fun1 fun2 flagged isfin prog d o ts s). Qed.
+
+  (* the default range lags .. n-1-leads, in the words of the property *)
+  Theorem C04_solve_default_range_frame (prog : program num) d o s :
+    wf_vals (length (status s)) (vals_of s) ->
+    (prog_lags num prog <= lags d)%nat -> (prog_leads num prog <= leads d)%nat ->
+    let n := length (status s) in
+    let s' := fst (solve_seq_M prog d o (default_positions d n) s) in
+    (forall i q,
+        (forall k p, In (i, k) (prog_lhs num prog) -> (lags d <= p)%nat -> (p + leads d < n)%nat -> Z.of_nat q <> Z.of_nat p + k) ->
+        (offset o = 0 \/ ~ In i (endo d) \/ (q < lags d)%nat \/ (n <= q + leads d)%nat) ->
+        nth_error (nth i (vals_of s') []) q = nth_error (nth i (vals_of s) []) q) /\
+    shape (vals_of s') = shape (vals_of s) /\
+    (forall q, (q < lags d)%nat \/ (n <= q + leads d)%nat ->
+               nth_error (status s') q = nth_error (status s) q /\ nth_error (iters s') q = nth_error (iters s) q).
+  Proof. exact (solve_default_range_frame num add sub mul div pow neg absf ltb leb eqb zero fun1 fun2 flagged isfin prog d o s). Qed.
+
+  (* ---- the real entry point: SolverMixin.solve / iter_periods (model Solver/SolveAll.v) over any label type ---- *)
+  Variable L : Type.
+  Variable locate : L -> locres.
+  Notation solve_P := (solve_P num add sub mul div pow neg absf ltb leb eqb zero fun1 fun2 flagged isfin L locate).
+  Notation solve_mon := (solve_mon num add sub mul div pow neg absf ltb leb eqb zero fun1 fun2 flagged isfin L locate).
+
+  (* solve() with no start / end on a span whose labels resolve to their own positions: iter_periods yields exactly
+     lags .. n-1-leads and the frame of the default range holds for the call as a whole *)
+  Theorem C04_solve_entry_default_range_frame (prog : program num) d o (span : list L) s :
+    min_iter o <= max_iter o -> SolveAllFacts.locate_ok L locate span ->
+    length (status s) = length span -> (lags d + leads d < length span)%nat ->
+    wf_vals (length (status s)) (vals_of s) ->
+    (prog_lags num prog <= lags d)%nat -> (prog_leads num prog <= leads d)%nat ->
+    let n := length (status s) in
+    let s' := fst (solve_P prog d o span None None s) in
+    (forall i q,
+        (forall k p, In (i, k) (prog_lhs num prog) -> (lags d <= p)%nat -> (p + leads d < n)%nat -> Z.of_nat q <> Z.of_nat p + k) ->
+        (offset o = 0 \/ ~ In i (endo d) \/ (q < lags d)%nat \/ (n <= q + leads d)%nat) ->
+        nth_error (nth i (vals_of s') []) q = nth_error (nth i (vals_of s) []) q) /\
+    shape (vals_of s') = shape (vals_of s) /\
+    (forall q, (q < lags d)%nat \/ (n <= q + leads d)%nat ->
+               nth_error (status s') q = nth_error (status s) q /\ nth_error (iters s') q = nth_error (iters s) q).
+  Proof. exact (solve_P_default_range_frame num add sub mul div pow neg absf ltb leb eqb zero fun1 fun2 flagged isfin L locate prog d o span s). Qed.
+
+  (* READS NEVER WRAP, whole solve(), ANY start / end (explicit infeasible periods are rejected by the guard): the
+     evaluator that raises on the first access not served in span at its requested distance from t is
+     indistinguishable from the plain one — same final state, same result or exception *)
+  Theorem C04_solve_entry_monitored_eq (prog : program num) d o (span : list L) start end_ s :
+    wf_vals (length (status s)) (vals_of s) -> vars_ok num prog (length (vals_of s)) ->
+    (prog_lags num prog <= lags d)%nat -> (prog_leads num prog <= leads d)%nat ->
+    solve_mon (length (status s)) prog d o span start end_ s = solve_P prog d o span start end_ s.
+  Proof. exact (solve_monitored_eq num add sub mul div pow neg absf ltb leb eqb zero fun1 fun2 flagged isfin L locate prog d o span start end_ s). Qed.
 End C04_eval.
+
+(* ============ Part B2: the second engine — FortranEngine.solve_t over the compiled template (model Fortran/FSolve.v) ============ *)
+Section C04_fortran.
+  Variable num : Type.
+  Variables (sub : num -> num -> num) (absf : num -> num) (ltb : num -> num -> bool)
+            (isfin : num -> bool) (zero : num).
+  Variable evf : Z -> vals num -> vals num.          (* the {equations} block: arbitrary *)
+  Notation w_solve_t := (w_solve_t num sub absf ltb isfin zero evf).
+
+  (* an explicit request for an infeasible period: THE WHOLE ANSWER of the Fortran engine, for every option set with a
+     valid `errors`, both spellings of t.  Always an exception (codes 13 / 14 -> FortranEngineError; SolutionError if
+     the wrapper's pre-existing-non-finite test fires first; IndexError for an out-of-span offset); status, iterations,
+     events untouched; values untouched unless a non-zero in-span offset was given (then the wrapper's copy remains) *)
+  Theorem C04_fortran_infeasible_rejected (fm : fmod) d o t s p ec :
+    min_iter o <= max_iter o -> w_ec (errors o) = Some ec ->
+    fm_lags fm = Z.of_nat (lags d) -> fm_leads fm = Z.of_nat (leads d) ->
+    py_pos (length (status s)) t = Some p -> feasible d (length (status s)) p = false ->
+    ncols_of num (vals_of s) = Z.of_nat (length (status s)) ->
+    let n := Z.of_nat (length (status s)) in
+    let q := Z.of_nat p + offset o in
+    let verdict (v : vals num) : exn :=
+      if is_raise (errors o) && negb (all_finite num isfin (get_check num zero d v p)) then SolutionError None else FortranEngineError in
+    w_solve_t fm d o t s =
+      if offset o =? 0 then (s, Raise (verdict (vals_of s)))
+      else if (q <? 0) || (n <=? q) then (s, Raise IndexError)
+      else let v0 := copy_endo num zero d (vals_of s) p (Z.to_nat q) in (setvals num s v0, Raise (verdict v0)).
+  Proof. exact (fortran_infeasible_rejected num sub absf ltb isfin zero evf fm d o t s p ec). Qed.
+
+  Theorem C04_fortran_infeasible_no_offset_no_change (fm : fmod) d o t s p ec :
+    min_iter o <= max_iter o -> w_ec (errors o) = Some ec ->
+    fm_lags fm = Z.of_nat (lags d) -> fm_leads fm = Z.of_nat (leads d) ->
+    py_pos (length (status s)) t = Some p -> feasible d (length (status s)) p = false ->
+    ncols_of num (vals_of s) = Z.of_nat (length (status s)) -> offset o = 0 ->
+    fst (w_solve_t fm d o t s) = s /\
+    (snd (w_solve_t fm d o t s) = Raise FortranEngineError \/ snd (w_solve_t fm d o t s) = Raise (SolutionError None)).
+  Proof. exact (fortran_infeasible_no_offset_no_change num sub absf ltb isfin zero evf fm d o t s p ec). Qed.
+
+  Theorem C04_fortran_infeasible_never_served (fm : fmod) d o t s p ec :
+    min_iter o <= max_iter o -> w_ec (errors o) = Some ec ->
+    fm_lags fm = Z.of_nat (lags d) -> fm_leads fm = Z.of_nat (leads d) ->
+    py_pos (length (status s)) t = Some p -> feasible d (length (status s)) p = false ->
+    ncols_of num (vals_of s) = Z.of_nat (length (status s)) ->
+    (exists e, snd (w_solve_t fm d o t s) = Raise e) /\
+    status (fst (w_solve_t fm d o t s)) = status s /\ iters (fst (w_solve_t fm d o t s)) = iters s /\
+    log (fst (w_solve_t fm d o t s)) = log s /\
+    agree_outside (fun i j => offset o <> 0 /\ In i (endo d) /\ j = p) (vals_of s) (vals_of (fst (w_solve_t fm d o t s))).
+  Proof. exact (fortran_infeasible_never_served num sub absf ltb isfin zero evf fm d o t s p ec). Qed.
+End C04_fortran.
 
 (* ============ Part C: witnesses on IEEE binary64 ============ *)
 (* finding #3 (still present in the code): rejected for pre-existing non-finite values, yet period t was overwritten *)
@@ -202,6 +337,16 @@ Theorem C04_infeasible_eval_pass_wraps :
     In a (snd (f_eval_pass [] false prog t v)) /\
     acc_req a = t + (-1) /\ acc_srv a = Some (n - 1)%nat /\ access_ok n t p a = false.
 Proof. exact infeasible_eval_pass_wraps. Qed.
+
+(* finding (Fortran engine, still present): infeasible period rejected, yet the wrapper's offset copy was left behind *)
+Theorem C04_fortran_infeasible_after_offset_refuted :
+  exists (fm : fmod) d o t s p,
+    py_pos (length (status s)) t = Some p /\ feasible d (length (status s)) p = false /\
+    fm_lags fm = Z.of_nat (lags d) /\ fm_leads fm = Z.of_nat (leads d) /\ offset o <> 0 /\
+    snd (exF_solve_t fm d o t s) = Raise FortranEngineError /\
+    nth_error (nth 0 (vals_of s) []) 0 = Some 1%float /\
+    nth_error (nth 0 (vals_of (fst (exF_solve_t fm d o t s))) []) 0 = Some 2%float.
+Proof. exact fortran_infeasible_after_offset_refuted. Qed.
 
 Print Assumptions C04_rejected_min_gt_max_no_change.
 Print Assumptions C04_rejected_offset_out_of_span_no_change.
@@ -223,4 +368,15 @@ Print Assumptions C04_default_positions_feasible.
 Print Assumptions C04_eval_pass_gauss_seidel.
 Print Assumptions C04_rejected_preexisting_after_offset_refuted.
 Print Assumptions C04_infeasible_eval_pass_wraps.
+Print Assumptions C04_no_event_no_change_or_finding3.
+Print Assumptions C04_no_event_no_change.
+Print Assumptions C04_solve_seq_frame_feasible.
+Print Assumptions C04_solve_default_range_frame.
+Print Assumptions C04_solve_entry_default_range_frame.
+Print Assumptions C04_solve_entry_monitored_eq.
+Print Assumptions C04_fortran_infeasible_rejected.
+Print Assumptions C04_fortran_infeasible_no_offset_no_change.
+Print Assumptions C04_fortran_infeasible_never_served.
+Print Assumptions C04_fortran_infeasible_after_offset_refuted.
 Print Assumptions ex_hyps_satisfiable.
+Print Assumptions exF_hyps.
